@@ -1,5 +1,6 @@
 import Driver.Common
 import ScionVerif.Model.ScmpHandler
+import ScionVerif.Model.ScmpSubscribers
 /-!
 line-protocol driver for the SCMP model (C14)
 
@@ -17,6 +18,8 @@ recv <handlers> <nrecv> <pkt> <rev>
 sim <action> <localIa> <localIf> <routerNib> <routerHost> <pkt> <rev> <offending|->
         action = scmp | err:<kind>
      -> reply <hex> | none | error | undecodable | invalid   pocketscion handle_scmp / SendSCMPErrorResponse
+subs <ops>      ops = comma list of r (register, gets the next identity 0,1,2..) | x<id> (drop receiver id) | e (SCMP error)
+     -> subs=<l;l;..>   one l per e: identities notified in call order, joined by '.', '-' = nobody
 const
 ```
 -/
@@ -84,6 +87,15 @@ def simStr : SimOut → String
   | .none => "none"
   | .error => "error"
 
+def parseSubsOp (s : String) : Option SubsOp :=
+  if s == "r" then some .register
+  else if s == "e" then some .error
+  else if s.startsWith "x" then (nat? (s.drop 1).toString).map .drop
+  else none
+
+def subsStr (ls : List (List Nat)) : String :=
+  "subs=" ++ ";".intercalate (ls.map fun l => if l.isEmpty then "-" else ".".intercalate (l.map toString))
+
 def step (st : Unit) : List String → Unit × String
   | ["errpkt", k, dIa, sIa, dN, sN, dH, sH, pt, path, off] =>
     match parseKind k, parseAddr dIa sIa dN sN dH sH, nat? pt, parseHex path, parseHex off with
@@ -126,6 +138,10 @@ def step (st : Unit) : List String → Unit × String
       | some hs =>
         if hs.isEmpty then "-" else
         ",".intercalate (hs.map fun | .error => "error" | .echo => "echo" | .custom _ => "custom"))
+  | ["subs", ops] =>
+    (st, match (ops.splitOn ",").mapM parseSubsOp with
+      | some ops => subsStr (subsRun {} ops)
+      | none => "bad-op")
   | ["const"] => (st, s!"max {SCMP_ERROR_MAX_PACKET_SIZE} maxhdr {MAX_HEADER_SIZE} scmp {PROTO_SCMP} udp {PROTO_UDP} cover {CHECKSUM_COVERS_MESSAGE} verify {VERIFY_CHECKSUM_ON_RECEIVE} unknownerr {NO_REPLY_TO_UNKNOWN_ERROR}")
   | _ => (st, "bad-op")
 
